@@ -227,6 +227,7 @@ inductive Op
   | vput (k : Nat) (v : Vec) | vdel (k : Nat) | vbuild
   | kput (cls : Nat) (k : Nat) (x : Int) (e : Option Int) | kdel (cls : Nat) (k : Nat)
   | ckpt (ts : Nat) (ord : List Nat) (name : Nat)
+  | ackpt (ts : Nat) (ord : List Nat) (name : Nat)   -- `CheckpointManager::create_auto` (name `auto-before-<op>`)
   | rollback (x : Nat) (ord : List Nat)       -- `ROLLBACK TO x`: x is an id OR a name
   | ckdel (x : Nat) (ord : List Nat)          -- `CheckpointManager::delete(x)`
   | setmax (n : Nat)
@@ -632,6 +633,28 @@ def doCkpt (d : Db) (ts : Nat) (ord : List Nat) (name : Nat) : Db × Res :=
   let cps := enforce d.maxCk ord (d.st.cps ++ [(id, ts)])
   ({ d with st := { d.st with cps := cps }, arch := d.arch ++ [⟨id, ts, name, img⟩], nextCk := id + 1 }, .id id)
 
+/-- `CheckpointManager::create_auto` — the auto-checkpoint the router takes in front of a destructive
+    statement (`DELETE` / `DROP` / `NODE DELETE` / `EDGE DELETE` / `EMBED DELETE` / … with
+    `auto_checkpoint` on).  A second copy of the tail of `create` in the code, with its own order of
+    the two steps: snapshot, `CheckpointStorage::store` (the record joins the listing), THEN
+    `RetentionManager::enforce` over the listing that already holds it.  The name is
+    `auto-before-<operation>` (an ordinary name: several auto-checkpoints share it). -/
+def doCkAuto (d : Db) (ts : Nat) (ord : List Nat) (name : Nat) : Db × Res :=
+  let id := d.nextCk
+  let img := d.st.snapshot
+  let cps := enforce d.maxCk ord (d.st.cps ++ [(id, ts)])
+  ({ d with st := { d.st with cps := cps }, arch := d.arch ++ [⟨id, ts, name, img⟩], nextCk := id + 1 }, .id id)
+
+/-- NOT the code: `create_auto` with its two steps the other way round ("make room first":
+    `enforce` over the listing BEFORE the new record is stored, then `store`).  `enforce` trims to
+    `max`, so at the limit it removes nothing and the store leaves `max + 1` records
+    (`Props.auto_room_first_overshoots_at_limit`, `…_witness`). -/
+def doCkAutoRoomFirst (d : Db) (ts : Nat) (ord : List Nat) (name : Nat) : Db × Res :=
+  let id := d.nextCk
+  let img := d.st.snapshot
+  let cps := enforce d.maxCk ord d.st.cps ++ [(id, ts)]
+  ({ d with st := { d.st with cps := cps }, arch := d.arch ++ [⟨id, ts, name, img⟩], nextCk := id + 1 }, .id id)
+
 /-- the blob of checkpoint `i` (blobs are immutable: name, timestamp and image never change) -/
 def blobOf (d : Db) (i : Nat) : Option Ckpt := d.arch.find? (·.id = i)
 
@@ -706,6 +729,10 @@ def doCkDelOld (d : Db) (x : Nat) (ord : List Nat) : Db × Res :=
 /-- `CheckpointManager::list(Some n)` / `CHECKPOINTS LIMIT n`: the first `n` of the listing -/
 def qCkptsTop (d : Db) (ord : List Nat) (n : Nat) : List (Nat × Nat) := (ckList ord d.st.cps).take n
 
+/-- `CheckpointManager::list(None)`: the FULL listing, newest first (the router's `CHECKPOINTS`
+    statement without `LIMIT` shows only the first 10 of it) -/
+def qCkptsAll (d : Db) (ord : List Nat) : List (Nat × Nat) := ckList ord d.st.cps
+
 /-- ids `CHECKPOINTS` lists -/
 def qCkpts (d : Db) : List Nat := sortNat (d.st.cps.map (·.1))
 
@@ -728,6 +755,7 @@ def step (d : Db) : Op → Db × Res
   | .kput c k x e => kPut d c k x e
   | .kdel c k => kDel d c k
   | .ckpt ts ord name => doCkpt d ts ord name
+  | .ackpt ts ord name => doCkAuto d ts ord name
   | .rollback x ord => doRollback d x ord
   | .ckdel x ord => doCkDel d x ord
   | .setmax n => ({ d with maxCk := n }, .ok)
